@@ -62,4 +62,4 @@ mut("to_Vector4D_mass_as_t", "src/vector/_methods.py", "        if any(coord is 
 mut("handler_priority_numpy_over_awkward", "src/vector/_methods.py", '    "vector.backends.numpy",\n    "vector.backends.sympy",\n    "vector.backends.awkward",\n]', '    "vector.backends.awkward",\n    "vector.backends.sympy",\n    "vector.backends.numpy",\n]', ["C05"], "NumPy outranks Awkward when choosing the result backend")
 mut("flavor_of_all_instead_of_any", "src/vector/_methods.py", "is_momentum = any(isinstance(obj, Momentum) for obj in objects)", "is_momentum = all(isinstance(obj, Momentum) for obj in objects if isinstance(obj, Vector))", ["C05"], "momentum only if every operand is momentum")
 mut("cross_accepts_4d", "src/vector/_methods.py", '        if dim(self) != 3 or dim(other) != 3:\n            raise TypeError("cross is only defined for 3D vectors")', '        if dim(self) < 3 or dim(other) < 3:\n            raise TypeError("cross is only defined for 3D vectors")', ["C05"], "cross no longer rejects 4D operands")
-mut("momentum3d_projection_generic", "src/vector/backends/numpy.py", "MomentumNumpy3D.ProjectionClass2D = MomentumNumpy2D", "MomentumNumpy3D.ProjectionClass2D = VectorNumpy2D", ["C04", "C05"], "projection of a 3D momentum NumPy array to 2D loses the flavor")
+mut("momentum3d_projection_generic", "src/vector/backends/numpy.py", "MomentumNumpy3D.ProjectionClass2D = MomentumNumpy2D", "MomentumNumpy3D.ProjectionClass2D = VectorNumpy2D", ["C04"], "projection of a 3D momentum NumPy array to 2D loses the flavor")
